@@ -1,66 +1,1212 @@
+// Command c16: searchers and correspondence for C16 (self tail calls run in constant frame space at
+// any depth).
+//
+// Generated self-recursive functions (0-4 parameters, variadic, locals, closures capturing parameters
+// per iteration, int/string/array accumulators; defined at top level or inside a function) in every
+// syntactic context of the self call, each paired with a mechanically derived loop (same prelude,
+// base test and update expressions, no call) that computes the expected value.
+//
+// Streams
+//
+//	tail      SEARCHER: tail forms complete at every depth, equal the loop's value, keep framesIndex at
+//	          its entry value and sp bounded (probe); closures captured in iteration i return iteration
+//	          i's values afterwards
+//	nontail   SEARCHER: non-tail forms give the reference value at small depths, push exactly one frame
+//	          per level (never reused as a tail call) and fail beyond the frame/stack capacity
+//	context   CORRESPONDENCE: opcodes the compiler emits after every self CALL per context and the frame
+//	          behaviour the VM shows there vs the model's context table and layout test
+//	model     CORRESPONDENCE: whole runs of programs inside the model's fragment on the Lean frame model
+//	          (callStep/retStep): outcome class, max framesIndex, max sp, dispatched instructions, result
 package main
 
 import (
+	"encoding/json"
 	"fmt"
+	"os"
+	"reflect"
+	"sort"
+	"strconv"
+	"strings"
+	"time"
+	"unsafe"
+
 	"github.com/d5/tengo/v2"
 	"github.com/d5/tengo/v2/parser"
 	"verifharness/lib"
 )
 
-func main() {
-	srcs := []string{
-		"f := func(n) { if n == 0 { return 5 }; return f(n-1) }\nout := f(D)\n",
-		"f := func(n) { return n == 0 || f(n-1) }\nout := f(D)\n",
-		"f := func(n) { return n != 0 && f(n-1) }\nout := f(D)\n",
-		"f := func(n) { if n == 0 { return 5 }; f(n-1) }\nout := f(D)\n",
-		"f := func(n) { if n == 0 { return 5 }; return 1 + f(n-1) }\nout := f(D)\n",
-		"f := func(n) { if n == 0 { return 5 }; x := f(n-1); return x }\nout := f(D)\n",
-		"f := func(n) { return n == 0 ? 5 : f(n-1) }\nout := f(D)\n",
-		"f := func(n) { return n != 0 ? f(n-1) : 5 }\nout := f(D)\n",
-		"g := func(x) { return x }\nf := func(n) { if n == 0 { return 5 }; return g(f(n-1)) }\nout := f(D)\n",
-		"f := func(n) { if n == 0 { return 5 }; return (f(n-1)) }\nout := f(D)\n",
-		"f := func(n) { if n != 0 { f(n-1) } }\nout := f(D)\n",
-		"f := func(n) { if n != 0 { return f(n-1) } else { return 5 } }\nout := f(D)\n",
-		"f := func(n) { for { if n == 0 { return 5 }; return f(n-1) } }\nout := f(D)\n",
-	}
-	for _, s := range srcs {
-		for _, d := range []string{"3", "700", "1022", "1023", "100000"} {
-			src := ""
-			for i := 0; i < len(s); i++ {
-				if s[i] == 'D' {
-					src += d
-				} else {
-					src += string(s[i])
-				}
-			}
-			c, err := lib.CompileSource([]byte(src), lib.CompileOpts{})
-			if err != nil {
-				fmt.Println("ERR", err)
-				continue
-			}
-			if d == "3" {
-				fmt.Println(s)
-				for _, f := range lib.Functions(c.BC)[1:] {
-					for _, l := range tengo.FormatInstructions(f.Instructions, 0) {
-						fmt.Println("   ", l)
-					}
-				}
-				_ = parser.OpCall
-			}
-			maxfi, maxsp := 0, 0
-			out := lib.RunBytecode(c, lib.RunOpts{Probe: func(v *tengo.VM, fn *tengo.CompiledFunction, ip, sp, bp, fi int, a int64) {
-				if fi > maxfi {
-					maxfi = fi
-				}
-				if sp > maxsp {
-					maxsp = sp
-				}
-			}})
-			o := out.String()
-			if len(o) > 100 {
-				o = o[:100]
-			}
-			fmt.Printf("  D=%s maxfi=%d maxsp=%d steps=%d %q\n", d, maxfi, maxsp, out.Steps, o)
+var (
+	res *lib.Result
+	drv *lib.Driver
+)
+
+func fatal(err error) {
+	fmt.Fprintln(os.Stderr, "c16:", err)
+	os.Exit(3)
+}
+
+// ---------------------------------------------------------------- specs
+
+type Param struct {
+	Name string `json:"name"`
+	Kind string `json:"kind"` // int | str | arr
+	Init string `json:"init"`
+	Upd  string `json:"upd"`
+}
+
+type Local struct {
+	Name string `json:"name"`
+	Expr string `json:"expr"`
+}
+
+// Spec describes one self-recursive function and, by the same fields, its loop.
+type Spec struct {
+	Form     string   `json:"form"`
+	Params   []Param  `json:"params"`             // Params[0] is the counter n; empty = global counter
+	Variadic bool     `json:"variadic,omitempty"` // an extra trailing `...r` parameter
+	VarInit  []string `json:"var_init,omitempty"`
+	VarCall  string   `json:"var_call,omitempty"` // list | spread | none
+	VarElems []string `json:"var_elems,omitempty"`
+	Locals   []Local  `json:"locals,omitempty"`
+	Base     string   `json:"base"`
+	Capture  bool     `json:"capture,omitempty"`
+	CapExpr  string   `json:"cap_expr,omitempty"`
+	Mutate   string   `json:"mutate,omitempty"` // statement run after the capture in the same iteration
+	Wrap     bool     `json:"wrap,omitempty"`   // f is a local of an enclosing function (calls itself through a free variable)
+	Helper   bool     `json:"helper,omitempty"` // a local is computed through a helper call
+}
+
+var tailForms = []string{"return", "and", "or", "and-merged", "or-merged", "ternary-false", "if-else", "paren", "in-loop", "forin", "spread", "stmt", "stmt-in-if"}
+var nonTailForms = []string{"plus", "assign", "arg", "ternary-true", "stmt-then-more", "other-fn"}
+
+// forms in which the self call is NOT in tail position in the sense of the property (its result is
+// used further or statements follow); "ternary-true" is a tail position the VM merely does not optimise.
+// forms whose base case stores its value in the global `res`
+var formsWithRes = map[string]bool{"return": true, "and": true, "or": true, "if-else": true, "paren": true, "in-loop": true, "forin": true,
+	"spread": true, "stmt": true, "stmt-in-if": true, "plus": true, "assign": true, "arg": true, "stmt-then-more": true}
+
+var semanticallyNonTail = map[string]bool{"plus": true, "assign": true, "arg": true, "stmt-then-more": true}
+
+func isTailForm(f string) bool {
+	for _, t := range tailForms {
+		if t == f {
+			return true
 		}
 	}
+	return false
+}
+
+func (s *Spec) counter() string {
+	if len(s.Params) == 0 {
+		return "cnt"
+	}
+	return s.Params[0].Name
+}
+
+func (s *Spec) names(kind string) []string {
+	var out []string
+	for _, p := range s.Params {
+		if p.Kind == kind {
+			out = append(out, p.Name)
+		}
+	}
+	return out
+}
+
+func genSpec(r *lib.RNG, form string) *Spec {
+	s := &Spec{Form: form}
+	np := r.Intn(5) // 0..4 parameters
+	if form == "and-merged" || form == "or-merged" || form == "ternary-false" || form == "ternary-true" ||
+		form == "if-else" || form == "stmt-in-if" || form == "other-fn" || form == "spread" || form == "forin" {
+		if np == 0 {
+			np = 1 + r.Intn(4)
+		}
+	}
+	kinds := []string{"int", "int", "int", "str", "arr"}
+	names := []string{"n", "a", "b", "c"}
+	for i := 0; i < np; i++ {
+		p := Param{Name: names[i], Kind: "int"}
+		if i > 0 {
+			p.Kind = lib.Pick(r, kinds)
+		}
+		s.Params = append(s.Params, p)
+	}
+	if np > 0 && form != "other-fn" && r.Chance(1, 4) {
+		s.Variadic = true
+		s.VarCall = lib.Pick(r, []string{"list", "spread", "none"})
+		if form == "spread" && s.VarCall == "spread" {
+			s.VarCall = "list"
+		}
+		for i, k := 0, r.Intn(3); i < k; i++ {
+			s.VarInit = append(s.VarInit, strconv.Itoa(r.Intn(9)))
+		}
+	}
+	n := s.counter()
+	ints := s.names("int")
+	// locals
+	for i, k := 0, r.Intn(3); i < k; i++ {
+		l := Local{Name: fmt.Sprintf("l%d", i)}
+		switch r.Intn(4) {
+		case 0:
+			l.Expr = n + " * 2 + 1"
+		case 1:
+			l.Expr = lib.Pick(r, ints2(ints, n)) + " % 5"
+		case 2:
+			l.Expr = "[" + n + "]"
+		default:
+			l.Expr = lib.Pick(r, ints2(ints, n)) + " + " + n
+		}
+		if np > 0 && r.Chance(1, 6) && l.Expr[0] != '[' {
+			l.Expr = "id(" + l.Expr + ")"
+			s.Helper = true
+		}
+		s.Locals = append(s.Locals, l)
+	}
+	intLocals := []string{}
+	for _, l := range s.Locals {
+		if l.Expr[0] != '[' {
+			intLocals = append(intLocals, l.Name)
+		}
+	}
+	// updates
+	for i := range s.Params {
+		p := &s.Params[i]
+		if i == 0 {
+			p.Init = "D"
+			p.Upd = n + " - 1"
+			continue
+		}
+		switch p.Kind {
+		case "int":
+			p.Init = strconv.Itoa(r.Intn(20))
+			opts := []string{p.Name + " + " + n, p.Name + " + 1", "(" + p.Name + " * 31 + " + n + ") % 1000003", p.Name + " - " + n, n + " % 7 + " + p.Name + " % 1000"}
+			if len(intLocals) > 0 {
+				opts = append(opts, p.Name+" + "+lib.Pick(r, intLocals))
+			}
+			if len(ints) > 2 {
+				opts = append(opts, lib.Pick(r, ints[1:])) // permute accumulators between positions
+			}
+			p.Upd = lib.Pick(r, opts)
+		case "str":
+			p.Init = lib.Pick(r, []string{`""`, `"s"`})
+			p.Upd = lib.Pick(r, []string{n + ` % 3 == 0 ? "" : ` + p.Name + ` + "x"`, p.Name + ` == "" ? "k" : ""`, "string(" + n + " % 10)"})
+		case "arr":
+			p.Init = lib.Pick(r, []string{"[]", "[1]"})
+			p.Upd = lib.Pick(r, []string{"[" + n + "]", "len(" + p.Name + ") < 3 ? " + p.Name + " + [" + n + "] : [" + n + "]", p.Name, "[" + n + ", len(" + p.Name + ")]"})
+		}
+	}
+	if s.Variadic && s.VarCall == "list" {
+		for i, k := 0, r.Intn(3); i < k; i++ {
+			s.VarElems = append(s.VarElems, lib.Pick(r, append(ints2(ints, n), "7")))
+		}
+	}
+	// base expression
+	all := []string{}
+	for _, p := range s.Params {
+		all = append(all, p.Name)
+	}
+	if len(s.Params) == 0 {
+		all = append(all, "acc")
+	}
+	for _, l := range s.Locals {
+		all = append(all, l.Name)
+	}
+	if s.Variadic {
+		all = append(all, "r")
+	}
+	switch {
+	case form == "plus":
+		if len(ints) > 1 {
+			s.Base = ints[1]
+		} else if len(s.Params) == 0 {
+			s.Base = "acc"
+		} else {
+			s.Base = "7"
+		}
+	case form == "and-merged":
+		s.Base = n + " != 0"
+	case form == "or-merged":
+		s.Base = n + " == 0"
+	case r.Chance(1, 3):
+		s.Base = lib.Pick(r, all)
+	default:
+		s.Base = "[" + strings.Join(all, ", ") + "]"
+	}
+	// closures capturing parameters
+	if len(s.Params) > 0 && r.Chance(1, 3) {
+		s.Capture = true
+		s.CapExpr = "[" + strings.Join(all, ", ") + "]"
+		if len(ints) > 1 && r.Bool() {
+			s.Mutate = ints[1] + " = " + ints[1] + " + 1000"
+		}
+	}
+	if form != "other-fn" && r.Chance(1, 5) {
+		s.Wrap = true
+	}
+	return s
+}
+
+func ints2(ints []string, n string) []string {
+	if len(ints) == 0 {
+		return []string{n}
+	}
+	return ints
+}
+
+// ---------------------------------------------------------------- rendering
+
+func (s *Spec) paramList(plain bool) string {
+	var ps []string
+	for _, p := range s.Params {
+		ps = append(ps, p.Name)
+	}
+	if s.Variadic {
+		if plain {
+			ps = append(ps, "r")
+		} else {
+			ps = append(ps, "...r")
+		}
+	}
+	return strings.Join(ps, ", ")
+}
+
+func (s *Spec) argList() []string {
+	var as []string
+	for _, p := range s.Params {
+		as = append(as, p.Upd)
+	}
+	return as
+}
+
+func (s *Spec) callArgs() string {
+	as := s.argList()
+	if s.Variadic {
+		switch s.VarCall {
+		case "list":
+			as = append(as, s.VarElems...)
+		case "spread":
+			as = append(as, "r...")
+		}
+	}
+	return strings.Join(as, ", ")
+}
+
+func (s *Spec) selfCall() string {
+	if s.Form == "spread" {
+		as := s.argList()
+		if s.Variadic && s.VarCall == "list" {
+			as = append(as, s.VarElems...)
+		}
+		return "f([" + strings.Join(as, ", ") + "]...)"
+	}
+	return "f(" + s.callArgs() + ")"
+}
+
+func (s *Spec) baseCond() string {
+	switch s.Form {
+	case "and-merged":
+		return "!(" + s.counter() + " != 0)"
+	}
+	return s.counter() + " == 0"
+}
+
+func (s *Spec) pre() string { // statements before the call of a parameterless function
+	if len(s.Params) == 0 {
+		return "acc = acc + cnt * 3 + 1; cnt = cnt - 1; "
+	}
+	return ""
+}
+
+func (s *Spec) prelude(loop bool) string {
+	var b strings.Builder
+	for _, l := range s.Locals {
+		fmt.Fprintf(&b, "\t%s := %s\n", l.Name, l.Expr)
+	}
+	if s.Capture {
+		if loop {
+			if s.Mutate != "" {
+				fmt.Fprintf(&b, "\t%s\n", s.Mutate)
+			}
+			fmt.Fprintf(&b, "\trec = append(rec, %s)\n", s.CapExpr)
+		} else {
+			fmt.Fprintf(&b, "\tcl = append(cl, func() { return %s })\n", s.CapExpr)
+			if s.Mutate != "" {
+				fmt.Fprintf(&b, "\t%s\n", s.Mutate)
+			}
+		}
+	}
+	return b.String()
+}
+
+func (s *Spec) inits(depth int, plain bool) string {
+	var as []string
+	for _, p := range s.Params {
+		if p.Init == "D" {
+			as = append(as, strconv.Itoa(depth))
+		} else {
+			as = append(as, p.Init)
+		}
+	}
+	if s.Variadic {
+		if plain {
+			as = append(as, "["+strings.Join(s.VarInit, ", ")+"]")
+		} else {
+			as = append(as, s.VarInit...)
+		}
+	}
+	return strings.Join(as, ", ")
+}
+
+func (s *Spec) globalsDecl(depth int, b *strings.Builder) {
+	if len(s.Params) == 0 {
+		fmt.Fprintf(b, "cnt := %d\nacc := 0\n", depth)
+	}
+	if s.Helper || s.Form == "arg" {
+		b.WriteString("id := func(x) { return x }\n")
+	}
+}
+
+// recSource is the recursive program; its observable globals are out, res, after, vals.
+func (s *Spec) recSource(depth int) string {
+	var b strings.Builder
+	b.WriteString("res := undefined\n")
+	if s.Form == "stmt-then-more" {
+		b.WriteString("after := 0\n")
+	}
+	if s.Capture {
+		b.WriteString("cl := []\n")
+	}
+	s.globalsDecl(depth, &b)
+	if s.Form == "other-fn" {
+		var ns []string
+		for _, p := range s.Params {
+			ns = append(ns, p.Name)
+		}
+		fmt.Fprintf(&b, "g := func(%s) { return [%s, 99] }\n", strings.Join(ns, ", "), strings.Join(ns, ", "))
+	}
+	ind := ""
+	if s.Wrap {
+		b.WriteString("out := func() {\n")
+		ind = "\t"
+	}
+	fmt.Fprintf(&b, "%sf := func(%s) {\n", ind, s.paramList(false))
+	bc, be, call, pre := s.baseCond(), s.Base, s.selfCall(), s.pre()
+	base := fmt.Sprintf("\tif %s { res = %s; return %s }\n", bc, be, be)
+	body := s.prelude(false)
+	switch s.Form {
+	case "return":
+		body += base + "\t" + pre + "return " + call + "\n"
+	case "and":
+		body += base + "\t" + pre + "return true && " + call + "\n"
+	case "or":
+		body += base + "\t" + pre + "return false || " + call + "\n"
+	case "and-merged":
+		body += "\treturn " + s.counter() + " != 0 && " + call + "\n"
+	case "or-merged":
+		body += "\treturn " + s.counter() + " == 0 || " + call + "\n"
+	case "ternary-false":
+		body += "\treturn " + bc + " ? " + be + " : " + call + "\n"
+	case "ternary-true":
+		body += "\treturn !(" + bc + ") ? " + call + " : " + be + "\n"
+	case "if-else":
+		body += "\tif !(" + bc + ") { return " + call + " } else { res = " + be + "; return " + be + " }\n"
+	case "paren":
+		body += base + "\t" + pre + "return (" + call + ")\n"
+	case "in-loop":
+		body += "\tfor {\n\t" + base + "\t\t" + pre + "return " + call + "\n\t}\n"
+	case "forin":
+		body += "\tfor x in [1] {\n\t" + base + "\t\treturn " + call + "\n\t}\n\treturn 0\n"
+	case "spread":
+		body += base + "\t" + pre + "return " + call + "\n"
+	case "stmt":
+		body += base + "\t" + pre + call + "\n"
+	case "stmt-in-if":
+		body += "\tif " + bc + " { res = " + be + " }\n\tif !(" + bc + ") { " + call + " }\n"
+	case "plus":
+		body += base + "\t" + pre + "return 1 + " + call + "\n"
+	case "assign":
+		body += base + "\t" + pre + "x := " + call + "\n\treturn x\n"
+	case "arg":
+		body += base + "\t" + pre + "return id(" + call + ")\n"
+	case "stmt-then-more":
+		body += base + "\t" + pre + call + "\n\tafter = after + 1\n\treturn 7\n"
+	case "other-fn":
+		body += base + "\treturn g(" + s.callArgs() + ")\n"
+	}
+	for _, ln := range strings.SplitAfter(body, "\n") {
+		if ln != "" {
+			b.WriteString(ind + ln)
+		}
+	}
+	b.WriteString(ind + "}\n")
+	if s.Wrap {
+		fmt.Fprintf(&b, "\treturn f(%s)\n}()\n", s.inits(depth, false))
+	} else {
+		fmt.Fprintf(&b, "out := f(%s)\n", s.inits(depth, false))
+	}
+	if s.Capture {
+		b.WriteString("vals := []\nfor c in cl { vals = append(vals, c()) }\n")
+	}
+	return b.String()
+}
+
+// loopSource is the mechanically derived loop: same prelude, base test and update expressions, all
+// parameters updated simultaneously, no call. Its globals are exp, res2, rec.
+func (s *Spec) loopSource(depth int) string {
+	var b strings.Builder
+	b.WriteString("res2 := undefined\nrec := []\n")
+	s.globalsDecl(depth, &b)
+	fmt.Fprintf(&b, "loop := func(%s) {\n\tfor {\n", s.paramList(true))
+	for _, ln := range strings.SplitAfter(s.prelude(true), "\n") {
+		if ln != "" {
+			b.WriteString("\t" + ln)
+		}
+	}
+	fmt.Fprintf(&b, "\t\tif %s { res2 = %s; return %s }\n", s.baseCond(), s.Base, s.Base)
+	if p := s.pre(); p != "" {
+		b.WriteString("\t\t" + p + "\n")
+	}
+	for i, p := range s.Params {
+		fmt.Fprintf(&b, "\t\tt%d := %s\n", i, p.Upd)
+	}
+	if s.Variadic {
+		switch s.VarCall {
+		case "list":
+			fmt.Fprintf(&b, "\t\ttr := [%s]\n", strings.Join(s.VarElems, ", "))
+		case "spread":
+			b.WriteString("\t\ttr := r\n")
+		default:
+			b.WriteString("\t\ttr := []\n")
+		}
+	}
+	for i, p := range s.Params {
+		fmt.Fprintf(&b, "\t\t%s = t%d\n", p.Name, i)
+	}
+	if s.Variadic {
+		b.WriteString("\t\tr = tr\n")
+	}
+	fmt.Fprintf(&b, "\t}\n}\nexp := loop(%s)\n", s.inits(depth, true))
+	return b.String()
+}
+
+// otherFnExpected evaluates the first iteration's call of g at top level (no function involved).
+func (s *Spec) otherFnSource(depth int) string {
+	var b strings.Builder
+	s.globalsDecl(depth, &b)
+	var ns []string
+	for _, p := range s.Params {
+		ns = append(ns, p.Name)
+	}
+	fmt.Fprintf(&b, "g := func(%s) { return [%s, 99] }\n", strings.Join(ns, ", "), strings.Join(ns, ", "))
+	for _, p := range s.Params {
+		init := p.Init
+		if init == "D" {
+			init = strconv.Itoa(depth)
+		}
+		fmt.Fprintf(&b, "%s := %s\n", p.Name, init)
+	}
+	for _, l := range s.Locals {
+		fmt.Fprintf(&b, "%s := %s\n", l.Name, l.Expr)
+	}
+	if s.Capture && s.Mutate != "" {
+		b.WriteString(s.Mutate + "\n")
+	}
+	fmt.Fprintf(&b, "exp := g(%s)\n", s.callArgs())
+	return b.String()
+}
+
+// ---------------------------------------------------------------- running
+
+func vmStack(v *tengo.VM) *[tengo.StackSize]tengo.Object {
+	f := reflect.ValueOf(v).Elem().FieldByName("stack")
+	return (*[tengo.StackSize]tengo.Object)(unsafe.Pointer(f.UnsafeAddr()))
+}
+
+type site struct {
+	Fn      *tengo.CompiledFunction
+	IP      int
+	Next    []int // the two opcode bytes after the CALL (second = -1 unless the first is POP)
+	Reused  int   // times the VM reused the frame here
+	Pushed  int   // times it pushed a frame
+	Insts   []byte
+	NumArgs int
+}
+
+type run struct {
+	Out    lib.RunOutcome
+	MaxFi  int
+	MaxSp  int
+	Sites  []*site
+	CErr   string
+	Comp   *lib.Compiled
+	FiGrew bool
+}
+
+func runSource(src string, watchSelf bool) *run {
+	r := &run{}
+	c, err := lib.CompileSource([]byte(src), lib.CompileOpts{})
+	if err != nil {
+		r.CErr = err.Error()
+		return r
+	}
+	r.Comp = c
+	sites := map[string]*site{}
+	var pending *site
+	pendFi := 0
+	var stack *[tengo.StackSize]tengo.Object
+	r.Out = lib.RunBytecode(c, lib.RunOpts{Timeout: 120 * time.Second, Probe: func(v *tengo.VM, fn *tengo.CompiledFunction, ip, sp, bp, fi int, a int64) {
+		if fi > r.MaxFi {
+			r.MaxFi = fi
+		}
+		if sp > r.MaxSp {
+			r.MaxSp = sp
+		}
+		if !watchSelf {
+			return
+		}
+		if pending != nil {
+			if fi == pendFi && ip == 0 && fn == pending.Fn {
+				pending.Reused++
+			} else if fi == pendFi+1 {
+				pending.Pushed++
+			}
+			pending = nil
+		}
+		ins := fn.Instructions
+		if ip < len(ins) && ins[ip] == parser.OpCall && ip+2 < len(ins) {
+			if stack == nil {
+				stack = vmStack(v)
+			}
+			na := int(ins[ip+1])
+			if k := sp - 1 - na; k >= 0 && k < tengo.StackSize {
+				if cf, ok := stack[k].(*tengo.CompiledFunction); ok && cf == fn {
+					key := fmt.Sprintf("%p:%d", &ins[0], ip)
+					st := sites[key]
+					if st == nil {
+						st = &site{Fn: fn, IP: ip, Insts: ins, NumArgs: na, Next: []int{-1, -1}}
+						if ip+3 < len(ins) {
+							st.Next[0] = int(ins[ip+3])
+							if ins[ip+3] == parser.OpPop && ip+4 < len(ins) {
+								st.Next[1] = int(ins[ip+4])
+							}
+						}
+						sites[key] = st
+						r.Sites = append(r.Sites, st)
+					}
+					pending, pendFi = st, fi
+				}
+			}
+		}
+	}})
+	return r
+}
+
+func (r *run) class() string {
+	switch {
+	case r.CErr != "":
+		return "compile-error"
+	case r.Out.TimedOut:
+		return "timeout"
+	case r.Out.Panic != "":
+		if strings.Contains(r.Out.Panic, "index out of range") {
+			return "panic-index"
+		}
+		return "panic"
+	case r.Out.Err != "":
+		if strings.Contains(r.Out.Err, "stack overflow") {
+			return "stack-overflow"
+		}
+		return "error"
+	}
+	return "ok"
+}
+
+func (r *run) detail() string {
+	s := r.class()
+	switch s {
+	case "compile-error":
+		return s + ": " + r.CErr
+	case "panic", "panic-index":
+		return s + ": " + r.Out.Panic
+	case "error", "stack-overflow":
+		return s + ": " + firstLine(r.Out.Err)
+	}
+	return s
+}
+
+func firstLine(s string) string {
+	if i := strings.Index(s, "\n"); i >= 0 {
+		return s[:i]
+	}
+	return s
+}
+
+func clip(s string, n int) string {
+	if len(s) > n {
+		return s[:n] + "…"
+	}
+	return s
+}
+
+type caseInput struct {
+	Spec   *Spec  `json:"spec"`
+	Depth  int    `json:"depth"`
+	Source string `json:"source"`
+	Loop   string `json:"loop,omitempty"`
+}
+
+func mnemonic(op int) string {
+	if op < 0 {
+		return "-"
+	}
+	if op < len(parser.OpcodeNames) {
+		return parser.OpcodeNames[op]
+	}
+	return strconv.Itoa(op)
+}
+
+// ---------------------------------------------------------------- the checks
+
+var ctxCache = map[string]string{}
+
+func modelCtx(form string) string {
+	if drv == nil {
+		return ""
+	}
+	if v, ok := ctxCache[form]; ok {
+		return v
+	}
+	ans, err := drv.Ask(lib.L("c16ctx", form))
+	if err != nil {
+		fatal(err)
+	}
+	res.ModelLines++
+	ctxCache[form] = ans
+	return ans
+}
+
+// expected value of `out` from the loop's value
+func expectedOut(s *Spec, depth int, exp string) (string, bool) {
+	switch s.Form {
+	case "stmt":
+		if depth >= 1 {
+			return "u", true
+		}
+		return exp, true
+	case "stmt-in-if":
+		return "u", true
+	case "stmt-then-more":
+		if depth >= 1 {
+			return "(i 7)", true
+		}
+		return exp, true
+	case "plus":
+		if strings.HasPrefix(exp, "(i ") {
+			k, err := strconv.ParseInt(strings.TrimSuffix(strings.TrimPrefix(exp, "(i "), ")"), 10, 64)
+			if err == nil {
+				return "(i " + strconv.FormatInt(k+int64(depth), 10) + ")", true
+			}
+		}
+		return "", false
+	}
+	return exp, true
+}
+
+func checkSpec(s *Spec, depths []int, deep int) {
+	tail := isTailForm(s.Form)
+	stream := "nontail"
+	if tail {
+		stream = "tail"
+	}
+	entry := 2 // main + f
+	if s.Wrap {
+		entry = 3
+	}
+	bound := entry
+	if s.Helper {
+		bound++ // id(...) inside the prelude
+	}
+	var sp2 int
+	maxfi0 := -1
+	for _, d := range depths {
+		if s.Capture && d > 100000 {
+			continue
+		}
+		src := s.recSource(d)
+		in := caseInput{Spec: s, Depth: d, Source: src}
+		// the oracle: the derived loop (or, for other-fn, the first call evaluated at top level)
+		lsrc := s.loopSource(d)
+		if s.Form == "other-fn" && d >= 1 {
+			lsrc = s.otherFnSource(d)
+		}
+		in.Loop = lsrc
+		lr := runSource(lsrc, false)
+		if lr.class() != "ok" {
+			// the generator produced something the loop itself cannot run: not a statement about tail calls
+			res.Skipped++
+			res.Dist("skip:loop-" + lr.class())
+			if os.Getenv("C16_DEBUG") != "" {
+				fmt.Fprintln(os.Stderr, "LOOP FAILED", lr.detail(), "\n"+lsrc)
+			}
+			return
+		}
+		rr := runSource(src, true)
+		key := src
+		res.Count(stream, key, d >= 2 && len(s.Params)+len(s.Locals) >= 1)
+		res.Dist("form:" + s.Form)
+		res.Dist(fmt.Sprintf("depth:%d", d))
+		res.Dist(fmt.Sprintf("params:%d", len(s.Params)))
+		if s.Variadic {
+			res.Dist("variadic:" + s.VarCall)
+		}
+		if s.Capture {
+			res.Dist("capture")
+		}
+		if s.Wrap {
+			res.Dist("wrapped")
+		}
+		res.Sample(map[string]interface{}{"form": s.Form, "depth": d, "source": src, "class": rr.class(), "max_fi": rr.MaxFi, "max_sp": rr.MaxSp}, 4)
+		if rr.class() == "timeout" {
+			res.Skipped++
+			continue
+		}
+		if rr.class() == "compile-error" {
+			res.Skipped++
+			res.Dist("skip:compile-error")
+			if os.Getenv("C16_DEBUG") != "" {
+				fmt.Fprintln(os.Stderr, "COMPILE ERROR", rr.CErr, "\n"+src)
+			}
+			return
+		}
+		exp := lr.Out.Globals["exp"]
+		// ---- context: what follows the self call, what the VM did there
+		if s.Form != "other-fn" {
+			checkContext(s, rr, in)
+		}
+		if tail {
+			// complete at every depth with the loop's value, constant frames, bounded sp
+			if rr.class() != "ok" {
+				res.Violate(lib.Violation{Signature: "tail-form-fails:" + s.Form + ":" + rr.class(), Stream: stream, Input: in,
+					Observed: rr.detail() + fmt.Sprintf(" (max framesIndex %d, max sp %d)", rr.MaxFi, rr.MaxSp),
+					Expected: "completes without error for every depth", Oracle: "property statement: a self call in tail position completes for every recursion depth"})
+				continue
+			}
+			want, _ := expectedOut(s, d, exp)
+			if got := rr.Out.Globals["out"]; got != want {
+				res.Violate(lib.Violation{Signature: "tail-form-value-differs-from-loop:" + s.Form, Stream: stream, Input: in,
+					Observed: "out = " + clip(got, 300), Expected: "out = " + clip(want, 300), Oracle: "mechanically derived loop run on the same VM (no calls)"})
+			}
+			if got, want := rr.Out.Globals["res"], lr.Out.Globals["res2"]; formsWithRes[s.Form] && got != want {
+				res.Violate(lib.Violation{Signature: "tail-form-base-case-state-differs-from-loop:" + s.Form, Stream: stream, Input: in,
+					Observed: "res = " + clip(got, 300), Expected: "res = " + clip(want, 300), Oracle: "mechanically derived loop"})
+			}
+			if rr.MaxFi > bound {
+				res.Violate(lib.Violation{Signature: "tail-form-grows-frames:" + s.Form, Stream: stream, Input: in,
+					Observed: fmt.Sprintf("max framesIndex %d at depth %d", rr.MaxFi, d), Expected: fmt.Sprintf("<= %d at every depth", bound), Oracle: "VM probe (framesIndex at every dispatched instruction)"})
+			}
+			if d == 2 {
+				sp2 = rr.MaxSp
+			}
+			if d > 2 && sp2 > 0 && (rr.MaxSp > sp2+8 || rr.MaxSp > 100) {
+				res.Violate(lib.Violation{Signature: "tail-form-grows-stack:" + s.Form, Stream: stream, Input: in,
+					Observed: fmt.Sprintf("max sp %d at depth %d (depth 2: %d)", rr.MaxSp, d, sp2), Expected: "sp bounded independently of the depth", Oracle: "VM probe (sp at every dispatched instruction)"})
+			}
+		} else {
+			if rr.class() != "ok" {
+				// small depths must work: they are far below both capacities
+				res.Violate(lib.Violation{Signature: "nontail-form-fails-at-small-depth:" + s.Form + ":" + rr.class(), Stream: stream, Input: in,
+					Observed: rr.detail(), Expected: "completes (depth far below MaxFrames and StackSize)", Oracle: "reference semantics"})
+				continue
+			}
+			if want, ok := expectedOut(s, d, exp); ok {
+				if got := rr.Out.Globals["out"]; got != want {
+					res.Violate(lib.Violation{Signature: "nontail-form-value-differs-from-reference:" + s.Form, Stream: stream, Input: in,
+						Observed: "out = " + clip(got, 300), Expected: "out = " + clip(want, 300), Oracle: "mechanically derived loop / direct evaluation (reference semantics of a call that is not in tail position)"})
+				}
+			}
+			if s.Form == "stmt-then-more" {
+				if got, want := rr.Out.Globals["after"], fmt.Sprintf("(i %d)", d); got != want {
+					res.Violate(lib.Violation{Signature: "statements-after-self-call-skipped", Stream: stream, Input: in,
+						Observed: "after = " + got, Expected: "after = " + want + " (the statement after each of the " + strconv.Itoa(d) + " calls runs)", Oracle: "reference semantics"})
+				}
+			}
+			if formsWithRes[s.Form] {
+				if got, want := rr.Out.Globals["res"], lr.Out.Globals["res2"]; got != want {
+					res.Violate(lib.Violation{Signature: "nontail-form-base-case-state-differs-from-loop:" + s.Form, Stream: stream, Input: in,
+						Observed: "res = " + clip(got, 300), Expected: "res = " + clip(want, 300), Oracle: "mechanically derived loop"})
+				}
+			}
+			// one frame per level
+			if s.Form == "other-fn" {
+				if d >= 1 && rr.MaxFi < entry+1 {
+					res.Violate(lib.Violation{Signature: "call-of-another-function-reused-the-frame", Stream: stream, Input: in,
+						Observed: fmt.Sprintf("max framesIndex %d", rr.MaxFi), Expected: fmt.Sprintf(">= %d (f calls g)", entry+1), Oracle: "VM probe"})
+				}
+			} else {
+				if d == 0 {
+					maxfi0 = rr.MaxFi
+				} else if maxfi0 >= 0 && semanticallyNonTail[s.Form] && rr.MaxFi != maxfi0+d {
+					res.Violate(lib.Violation{Signature: "nontail-self-call-does-not-push-one-frame-per-level:" + s.Form, Stream: stream, Input: in,
+						Observed: fmt.Sprintf("max framesIndex %d at depth %d (depth 0: %d)", rr.MaxFi, d, maxfi0), Expected: fmt.Sprintf("%d", maxfi0+d), Oracle: "VM probe: a self call that is not in tail position is never treated as one"})
+				}
+			}
+		}
+		// closures captured in iteration i
+		if s.Capture && rr.class() == "ok" && s.Form != "other-fn" {
+			if got, want := rr.Out.Globals["vals"], lr.Out.Globals["rec"]; got != want {
+				res.Violate(lib.Violation{Signature: "closure-of-earlier-iteration-sees-other-values:" + s.Form, Stream: stream, Input: in,
+					Observed: "vals = " + clip(got, 400), Expected: "vals = " + clip(want, 400), Oracle: "values recorded by the derived loop in each iteration"})
+			}
+			res.Count("capture", key, d >= 2)
+		}
+		// the frame model on the same bytecode
+		if d <= 1000 {
+			checkModel(rr, in, "model")
+		}
+	}
+	// beyond the capacities
+	if !tail && deep > 0 && semanticallyNonTail[s.Form] {
+		src := s.recSource(deep)
+		in := caseInput{Spec: s, Depth: deep, Source: src}
+		rr := runSource(src, true)
+		res.Count(stream, src, true)
+		res.Dist("deep-nontail:" + rr.class())
+		if rr.class() == "ok" {
+			res.Violate(lib.Violation{Signature: "nontail-form-completes-beyond-capacity:" + s.Form, Stream: stream, Input: in,
+				Observed: fmt.Sprintf("completed at depth %d with max framesIndex %d", deep, rr.MaxFi), Expected: "stack overflow (MaxFrames/StackSize cannot hold that many frames unless they are reused)", Oracle: "capacity argument: a self call that is not in tail position is never treated as one"})
+		}
+		checkContext(s, rr, in)
+	}
+}
+
+func opsStr(xs []int) string {
+	var out []string
+	for _, x := range xs {
+		if x >= 0 {
+			out = append(out, strconv.Itoa(x))
+		}
+	}
+	return "(" + strings.Join(out, " ") + ")"
+}
+
+func checkContext(s *Spec, rr *run, in caseInput) {
+	for _, st := range rr.Sites {
+		next := append([]int{}, st.Next...)
+		res.Dist("after-call:" + s.Form + ":" + mnemonic(next[0]) + ";" + mnemonic(next[1]))
+		res.Count("context", fmt.Sprintf("%s|%d|%d|%v", s.Form, next[0], next[1], st.Reused > 0), true)
+		// model-independent: a call that is semantically not a tail call must never reuse the frame
+		if semanticallyNonTail[s.Form] && st.Reused > 0 {
+			res.Violate(lib.Violation{Signature: "nontail-self-call-reused-frame:" + s.Form, Stream: "context", Input: in,
+				Observed: fmt.Sprintf("self CALL at %d followed by %s %s restarted the running frame %d time(s)", st.IP, mnemonic(next[0]), mnemonic(next[1]), st.Reused),
+				Expected: "a new frame", Oracle: "VM probe: a self call that is not in tail position is never treated as one"})
+		}
+		if drv == nil {
+			continue
+		}
+		// the model's layout test on the real bytes
+		ans, err := drv.Ask(lib.L("c16pattern", lib.Hex(st.Insts), lib.N(st.IP+2)))
+		if err != nil {
+			fatal(err)
+		}
+		res.ModelLines++
+		impl := ""
+		switch {
+		case st.Reused > 0 && st.Pushed == 0:
+			impl = "tail"
+		case st.Pushed > 0 && st.Reused == 0:
+			impl = "nontail"
+		case st.Pushed == 0 && st.Reused == 0:
+			impl = "" // the call failed (stack overflow): nothing observed
+		default:
+			impl = "mixed"
+		}
+		if impl != "" && strings.Fields(ans)[0] != impl {
+			res.Disagree(lib.Disagreement{Stream: "context", Input: in, Model: "layout test: " + ans, Impl: fmt.Sprintf("%s (reused %d, pushed %d) at CALL %d followed by %s %s", impl, st.Reused, st.Pushed, st.IP, mnemonic(next[0]), mnemonic(next[1]))})
+		}
+		// the model's context table
+		want := modelCtx(s.Form)
+		gotOps := opsStr(next)
+		if want != "" && want != "unknown" {
+			f := strings.SplitN(want, ") ", 2)
+			wantOps := f[0] + ")"
+			if s.Form == "stmt-then-more" || s.Form == "assign" {
+				// only the first opcode is fixed by the context (DEFL or SETL; POP then any statement)
+				if !(len(next) > 0 && strings.HasPrefix(wantOps, "("+strconv.Itoa(next[0]))) && !(s.Form == "assign" && next[0] == int(parser.OpSetLocal)) {
+					res.Disagree(lib.Disagreement{Stream: "context", Input: in, Model: "after the CALL: " + want, Impl: gotOps})
+				}
+			} else if wantOps != gotOps {
+				res.Disagree(lib.Disagreement{Stream: "context", Input: in, Model: "after the CALL: " + want, Impl: gotOps})
+			}
+			if impl != "" && len(f) == 2 && ((f[1] == "1") != (impl == "tail")) {
+				res.Disagree(lib.Disagreement{Stream: "context", Input: in, Model: "context table: " + want, Impl: impl})
+			}
+		}
+	}
+}
+
+// checkModel runs the compiled program on the Lean frame model and compares with the real run.
+func checkModel(rr *run, in caseInput, stream string) {
+	if drv == nil || rr.Comp == nil {
+		return
+	}
+	bc := rr.Comp.BC
+	fns := lib.Functions(bc)
+	idx := map[*tengo.CompiledFunction]int{}
+	for i, f := range fns {
+		idx[f] = i
+	}
+	var cs, fs []string
+	for _, k := range bc.Constants {
+		switch v := k.(type) {
+		case *tengo.Int:
+			cs = append(cs, "(i "+lib.I(v.Value)+")")
+		case *tengo.CompiledFunction:
+			cs = append(cs, "(fn "+lib.N(idx[v])+")")
+		default:
+			cs = append(cs, "(x)")
+		}
+	}
+	for _, f := range fns {
+		fs = append(fs, lib.L(lib.N(f.NumParameters), lib.N(f.NumLocals), lib.B(f.VarArgs), lib.Hex(f.Instructions)))
+	}
+	names := rr.Comp.Symbols.Names()
+	gidx := map[string]int{}
+	ng := 0
+	for _, n := range names {
+		if sym, _, ok := rr.Comp.Symbols.Resolve(n, false); ok && sym.Scope == tengo.ScopeGlobal {
+			gidx[n] = sym.Index
+			if sym.Index+1 > ng {
+				ng = sym.Index + 1
+			}
+		}
+	}
+	fuel := rr.Out.Steps + 10
+	ans, err := drv.Ask(lib.L("c16run", lib.N(tengo.MaxFrames), lib.N(tengo.StackSize), lib.N(ng), lib.N(fuel),
+		"("+strings.Join(cs, " ")+")", "("+strings.Join(fs, " ")+")"))
+	if err != nil {
+		fatal(err)
+	}
+	res.ModelLines++
+	w := strings.Fields(ans)
+	if len(w) == 0 || w[0] == "unsupported" || w[0] == "model-timeout" {
+		res.Skipped++
+		res.Dist("model:unsupported")
+		return
+	}
+	var impl string
+	tailS := fmt.Sprintf(" %d %d %d", rr.MaxFi, rr.MaxSp, rr.Out.Steps)
+	switch rr.class() {
+	case "ok":
+		gs := make([]string, ng)
+		for i := range gs {
+			gs[i] = "u"
+		}
+		for n, i := range gidx {
+			if v, ok := rr.Out.Globals[n]; ok {
+				gs[i] = v
+			}
+		}
+		impl = "ok" + tailS + " (" + strings.Join(gs, " ") + ")"
+	case "stack-overflow":
+		impl = "err stack-overflow" + tailS
+	case "panic-index":
+		impl = "panic" + tailS
+	default:
+		res.Skipped++
+		return
+	}
+	res.Count(stream, in.Source, true)
+	res.Dist("model:" + w[0])
+	if ans != impl {
+		res.Disagree(lib.Disagreement{Stream: stream, Input: in, Model: clip(ans, 400), Impl: clip(impl, 400)})
+	}
+}
+
+// ---------------------------------------------------------------- fixed cases
+
+// closedForms: recursive programs whose value is known in closed form (oracle independent of Tengo).
+func closedForms(depths []int) {
+	for _, d := range depths {
+		D := int64(d)
+		type cf = struct {
+			name, src, want string
+			frames        int // bound on framesIndex (0 = not checked)
+		}
+		cases := []cf{
+			{"sum", fmt.Sprintf("f := func(n, a) { if n == 0 { return a }; return f(n-1, a+n) }\nout := f(%d, 0)\n", d), fmt.Sprintf("(i %d)", D*(D+1)/2), 2},
+			{"count-or", fmt.Sprintf("c := 0\nf := func(n) { c = c + 1; return n == 0 || f(n-1) }\nout := [f(%d), c]\n", d), fmt.Sprintf("(a (b 1) (i %d))", D+1), 2},
+			{"count-and", fmt.Sprintf("c := 0\nf := func(n) { c = c + 1; return n != 0 && f(n-1) }\nout := [f(%d), c]\n", d), fmt.Sprintf("(a (b 0) (i %d))", D+1), 2},
+			{"swap", fmt.Sprintf("f := func(n, a, b) { if n == 0 { return [a, b] }; return f(n-1, b, a) }\nout := f(%d, 1, 2)\n", d), map[bool]string{true: "(a (i 1) (i 2))", false: "(a (i 2) (i 1))"}[d%2 == 0], 2},
+			{"shift3", fmt.Sprintf("f := func(n, a, b, c) { if n == 0 { return [a, b, c] }; return f(n-1, b, c, a) }\nout := f(%d, 1, 2, 3)\n", d), [3]string{"(a (i 1) (i 2) (i 3))", "(a (i 2) (i 3) (i 1))", "(a (i 3) (i 1) (i 2))"}[d%3], 2},
+			{"variadic-count", fmt.Sprintf("f := func(n, ...r) { if n == 0 { return len(r) }; return f(n-1, n, n) }\nout := f(%d)\n", d), map[bool]string{true: "(i 0)", false: "(i 2)"}[d == 0], 2},
+			{"o17-stmt", fmt.Sprintf("f := func(n) { if n == 0 { return 5 }; f(n-1) }\nout := f(%d)\n", d), map[bool]string{true: "(i 5)", false: "u"}[d == 0], 2},
+			{"o17-alternating", fmt.Sprintf("f := func(n, k) { if n == 0 { return 5 }; if k { return f(n-1, false) }; f(n-1, true) }\nout := [f(%d, true), f(%d, false)]\n", d, d),
+				[3]string{"(a (i 5) (i 5))", "(a (i 5) u)", "(a u u)"}[min(d, 2)], 2},
+			{"discard-then-return", fmt.Sprintf("f := func(n, k) { if n == 0 { return 5 }; if k == 0 { return f(n-1, 1) }; f(n-1, 0) }\nout := f(%d, 1)\n", d), map[bool]string{true: "(i 5)", false: "u"}[d == 0], 2},
+		}
+		if d == 1 {
+			// the discard mark belongs to one activation: a later, independent activation returns its value
+			cases = append(cases, cf{"discard-mark-not-sticky",
+				"f := func(n, k) { if n == 0 { return 5 }; if k { f(n-1, k) }; if !k { return f(n-1, k) } }\na := f(3, true)\nb := f(3, false)\nc := f(2, true)\nout := [a, b, c]\n", "(a u (i 5) u)", 0})
+		}
+		for _, c := range cases {
+			rr := runSource(c.src, true)
+			res.Count("tail", c.src, true)
+			res.Dist("closed-form:" + c.name)
+			in := caseInput{Depth: d, Source: c.src}
+			if rr.class() == "timeout" {
+				res.Skipped++
+				continue
+			}
+			if rr.class() != "ok" {
+				res.Violate(lib.Violation{Signature: "tail-form-fails:closed-form-" + c.name + ":" + rr.class(), Stream: "tail", Input: in,
+					Observed: rr.detail(), Expected: "out = " + c.want, Oracle: "closed form"})
+				continue
+			}
+			if got := rr.Out.Globals["out"]; got != c.want {
+				res.Violate(lib.Violation{Signature: "tail-form-value-differs-from-closed-form:" + c.name, Stream: "tail", Input: in,
+					Observed: "out = " + clip(got, 200), Expected: "out = " + c.want, Oracle: "closed form computed in Go"})
+			}
+			if c.frames > 0 && rr.MaxFi > c.frames {
+				res.Violate(lib.Violation{Signature: "tail-form-grows-frames:closed-form-" + c.name, Stream: "tail", Input: in,
+					Observed: fmt.Sprintf("max framesIndex %d", rr.MaxFi), Expected: fmt.Sprintf("<= %d", c.frames), Oracle: "VM probe"})
+			}
+			if d <= 1000 {
+				checkModel(rr, in, "model")
+			}
+		}
+	}
+}
+
+// frameBoundary: a non-tail recursion that needs one stack slot per frame reaches MaxFrames before
+// StackSize; the model predicts the exact depth at which `stack overflow` is reported.
+func frameBoundary() {
+	for _, d := range []int{tengo.MaxFrames - 3, tengo.MaxFrames - 2, tengo.MaxFrames - 1, tengo.MaxFrames, tengo.MaxFrames + 50} {
+		src := fmt.Sprintf("cnt := %d\nf := func() { cnt = cnt - 1; return cnt > 0 ? f() : 5 }\nout := f()\n", d)
+		rr := runSource(src, true)
+		in := caseInput{Depth: d, Source: src}
+		res.Count("nontail", src, true)
+		res.Dist("frame-boundary:" + rr.class())
+		if rr.class() == "ok" && rr.MaxFi != d+1 {
+			res.Violate(lib.Violation{Signature: "nontail-self-call-does-not-push-one-frame-per-level:boundary", Stream: "nontail", Input: in,
+				Observed: fmt.Sprintf("max framesIndex %d", rr.MaxFi), Expected: strconv.Itoa(d + 1), Oracle: "VM probe"})
+		}
+		if rr.class() == "ok" && d+1 > tengo.MaxFrames {
+			res.Violate(lib.Violation{Signature: "more-frames-than-MaxFrames", Stream: "nontail", Input: in,
+				Observed: fmt.Sprintf("completed with max framesIndex %d", rr.MaxFi), Expected: "stack overflow", Oracle: "MaxFrames"})
+		}
+		checkModel(rr, in, "model")
+	}
+}
+
+// ---------------------------------------------------------------- main
+
+func main() {
+	f := lib.ParseFlags()
+	res = lib.NewResult("C16", f)
+	var err error
+	drv, err = lib.StartDriver(f.Driver)
+	if err != nil {
+		fatal(err)
+	}
+	if drv != nil {
+		drv.Timeout = 120 * time.Second
+	}
+	defer drv.Close()
+	res.DriverUsed = drv != nil
+	res.Rule = "self-recursive functions from a generator over (context of the self call: 13 tail layouts, 6 non-tail ones) × (0-4 parameters, variadic list/spread/none, locals, helper calls, int/string/array accumulators, closures capturing parameters with and without later assignment, definition at top level or inside a function) × depths; " +
+		"each paired with a mechanically derived loop; non-trivial = depth >= 2 and at least one parameter or local; distinct by program text"
+	if f.Replay != "" {
+		replay(f.Replay)
+		res.Write(f.Out)
+		return
+	}
+	lib.RunProbes(res, "C16", f.Known)
+
+	small := []int{0, 1, 2, 5, 30}
+	tailDepths := []int{1, 2, 1000, 100000}
+	deepNonTail := 100000
+	closedDepths := []int{0, 1, 2, 3, 1000, 100000}
+	if f.Thorough() {
+		closedDepths = append(closedDepths, 1000000)
+	}
+	closedForms(closedDepths)
+	frameBoundary()
+
+	rng := lib.NewRNG(f.Seed)
+	n := f.Scale(150, 4000)
+	for i := 0; i < n; i++ {
+		r := rng.Fork()
+		var form string
+		if i%3 == 2 {
+			form = nonTailForms[(i/3)%len(nonTailForms)]
+		} else {
+			form = tailForms[(i-i/3)%len(tailForms)]
+		}
+		s := genSpec(r, form)
+		if isTailForm(form) {
+			ds := tailDepths
+			if f.Thorough() && i%40 == 0 {
+				ds = append(append([]int{}, tailDepths...), 1000000)
+			}
+			if !f.Thorough() && i%4 != 0 {
+				ds = []int{1, 2, 1000, 20000}
+			}
+			checkSpec(s, ds, 0)
+		} else {
+			checkSpec(s, small, deepNonTail)
+		}
+	}
+	keys := make([]string, 0, len(ctxCache))
+	for k := range ctxCache {
+		keys = append(keys, k)
+	}
+	sort.Strings(keys)
+	res.Extra = map[string]interface{}{"model_context_table": ctxCache, "contexts": keys}
+	res.Write(f.Out)
+}
+
+func replay(path string) {
+	b, err := os.ReadFile(path)
+	if err != nil {
+		fatal(err)
+	}
+	var rp struct {
+		Violations []struct {
+			Input caseInput `json:"input"`
+		} `json:"violations"`
+		Disagreements []struct {
+			Input caseInput `json:"input"`
+		} `json:"disagreements"`
+	}
+	if err := json.Unmarshal(b, &rp); err != nil {
+		fatal(err)
+	}
+	seen := map[string]bool{}
+	one := func(in caseInput) {
+		if seen[in.Source] {
+			return
+		}
+		seen[in.Source] = true
+		if in.Spec != nil {
+			ds := []int{0, 1, 2, in.Depth}
+			if isTailForm(in.Spec.Form) {
+				checkSpec(in.Spec, ds, 0)
+			} else if in.Depth > 1000 {
+				checkSpec(in.Spec, []int{0, 1, 2}, in.Depth)
+			} else {
+				checkSpec(in.Spec, ds, 0)
+			}
+			return
+		}
+		closedForms([]int{in.Depth})
+		frameBoundary()
+	}
+	for _, v := range rp.Violations {
+		one(v.Input)
+	}
+	for _, v := range rp.Disagreements {
+		one(v.Input)
+	}
+	lib.RunProbes(res, "C16", "")
 }
